@@ -779,8 +779,9 @@ def run(tier, seed):
     run_refresh(s4, refresh_cases(rng, tier))
     suites.append(s4)
     from .. import extra
-    return list(suites) + [extra.suite_policy_reapplied(tier, seed), extra.suite_recipe_validator(tier, seed)]
-
+    from .. import extra as _extra
+    _more = [_extra.suite_second_instance_policies(tier, seed)]
+    return list(list(suites) + [extra.suite_policy_reapplied(tier, seed), extra.suite_recipe_validator(tier, seed)]) + _more
 
 def replay(payload):
     import logging
